@@ -122,6 +122,12 @@ pub fn dispatch(f: &[&str]) -> String {
             };
             match r { Ok(m) => format!("ok\t{}", hex(&m.formatted())), Err(e) => format!("err\t{e}") }
         }
+        "c19.dkim_key" => {
+            // f[1] rsa | ed, f[2] key text
+            use lettre::message::dkim::{DkimSigningAlgorithm, DkimSigningKey};
+            let Some(x) = s(f[2]) else { return "invalid-utf8".into() };
+            match DkimSigningKey::new(&x, if f[1] == "rsa" { DkimSigningAlgorithm::Rsa } else { DkimSigningAlgorithm::Ed25519 }) { Ok(_) => "ok".into(), Err(_) => "err".into() }
+        }
         "c19.from_empty" => {
             // a From header holding an empty mailbox list
             let r = lettre::Message::builder().mailbox(header::From::from(lettre::message::Mailboxes::new())).to("b@y.example".parse().unwrap()).body(String::from("x"));
